@@ -476,6 +476,19 @@ def natural_run(tdgl, p, tmp=None, opts=None):
         st["the_solver"] = self
         return res
 
+    # history "seeded from another solution": p["seed"] overrides the parameters of a first (unobserved) run on the same
+    # device and drive whose Solution is handed to the observed run as seed_solution
+    seed_solution = None
+    if p.get("seed") is not None:
+        sp = dict({k: v for k, v in p.items() if k != "seed"}, **p["seed"])
+        so = tdgl.SolverOptions(
+            solve_time=sp["solve_time"], dt_init=sp["dt_init"], dt_max=sp.get("dt_max", max(0.1, sp["dt_init"])),
+            adaptive=sp.get("adaptive", True), adaptive_window=sp.get("window", 3), include_screening=sp.get("screening", False),
+            screening_tolerance=sp.get("tol", 1e-3), screening_step_size=sp.get("alpha", 0.1), screening_step_drag=sp.get("beta", 0.5),
+            save_every=sp.get("k", 5), progress_interval=10 ** 9, pause_on_interrupt=False, output_file=str(sandbox / "seed.h5"),
+            field_units="mT", current_units="uA")
+        seed_solution = tdgl.solve(dev, so, applied_vector_potential=sp.get("field", 0.0), terminal_currents=currents)
+        st["seed_max_induced"] = float(np.abs(seed_solution.tdgl_data.induced_vector_potential).max())
     P = Patches()
     raised = None
     try:
@@ -485,7 +498,8 @@ def natural_run(tdgl, p, tmp=None, opts=None):
         P.set(MeshOperators, "set_link_exponents", sle_w)
         opts_before = {k: repr(v) for k, v in dataclasses.asdict(opts).items()}
         try:
-            tdgl.solve(dev, opts, applied_vector_potential=p.get("field", 0.0), terminal_currents=currents)
+            tdgl.solve(dev, opts, applied_vector_potential=p.get("field", 0.0), terminal_currents=currents,
+                       seed_solution=seed_solution)
         except Exception as e:  # noqa
             raised = classify(e)
             if not ev or ev[-1]["ev"] != "raise":
@@ -528,7 +542,7 @@ def natural_run(tdgl, p, tmp=None, opts=None):
         p = {k: v for k, v in p.items() if k != "_keep_opts"}
         _KEPT["opts"] = opts
     return {"mode": "flags", "cfg": cfg, "ev": ev, "params": p, "raised": raised,
-            "stats": {"updates": st["n_updates"], "restarts": st.get("restarts", 0),
+            "stats": {"seed_max_induced": st.get("seed_max_induced"), "updates": st["n_updates"], "restarts": st.get("restarts", 0),
                       "updates_before_restart": st.get("updates_before_restart", 0),
                       "refusals_before_restart": st.get("refusals_before_restart", 0),
                       "tent_at_restart": st.get("tent_at_restart"), "max_retries_in_a_step": st["max_retries_seen"],
